@@ -113,7 +113,7 @@ def bill(req):
     out = []
     for c in req['configs']:
         cls = GCPSlimInstanceConfig if c['cloud'] == 'gcp' else AzureSlimInstanceConfig
-        rec = {'config': c}
+        rec = {'config': {k: v for k, v in c.items() if k != 'jobs'}}
         try:
             cfg = cls.create(PV(c.get('missing_products', ())), c['machine_type'], c['preemptible'], c['local_ssd_data_disk'],
                              c['data_disk_size_gb'], c['boot_disk_size_gb'], c['job_private'], c['location'])
@@ -126,7 +126,16 @@ def bill(req):
             out.append(rec)
             continue
         rec['create'] = 'ok'
+        override = c.get('cores_override')
+        if override is not None:
+            # a core count the current machine tables do not contain: the real classes and the real quantified_resources,
+            # on an instance config whose `cores` attribute is set by hand (the formulas read nothing else of the machine)
+            cfg.cores = int(override)
         rec['cores'] = cfg.cores
+        # the instance's ACTUAL resources, read from the objects themselves (never through quantified_resources)
+        rec['res_info'] = [[type(r).__name__, getattr(r, 'name', None), {a: getattr(r, a) for a in ('storage_in_gib', 'number')
+                                                      if isinstance(getattr(r, a, None), int) and not isinstance(getattr(r, a), bool)}]
+                           for r in cfg.resources]
         rec['memory'] = cfg.instance_memory()
         d = cfg.to_dict()
         rec['to_dict'] = d
@@ -134,6 +143,8 @@ def bill(req):
         rec['resources'] = [[type(r).__name__, fields_of(r)] for r in cfg.resources]
         try:
             cfg2 = cls.from_dict(json.loads(json.dumps(d)))
+            if override is not None:
+                cfg2.cores = int(override)
             rec['reload'] = 'ok'
             rec['to_dict_again'] = cfg2.to_dict()
             rec['cores2'] = cfg2.cores
@@ -147,6 +158,8 @@ def bill(req):
         rec['jobs'] = c['jobs']
         rec['billed'] = [quantify(cfg, j) for j in c['jobs']]
         rec['billed_reloaded'] = None if cfg2 is None else [quantify(cfg2, j) for j in c['jobs']]
+        if rec['billed_reloaded'] == rec['billed']:
+            rec['billed_reloaded'] = 'same'          # (expanded again by the caller; halves the output)
         rec['whole'] = quantify(cfg, [cfg.cores * 1000, cfg.instance_memory(), 0])
         rec['whole_reloaded'] = None if cfg2 is None else quantify(cfg2, [cfg2.cores * 1000, cfg2.instance_memory(), 0])
         out.append(rec)
@@ -158,7 +171,7 @@ def main():
     if req['mode'] == 'tables':
         json.dump(tables(), sys.stdout)
     elif req['mode'] == 'bill':
-        json.dump({'results': bill(req)}, sys.stdout)
+        sys.stdout.write(json.dumps({'results': bill(req)}))      # ONE write: the driver runs this script unbuffered (-u)
     else:
         raise SystemExit('unknown mode')
 
